@@ -471,23 +471,7 @@ func checkLoaderFilter(w *World, c *Check, rule string) {
 		c.bad(rule, "anchor:NotEmpty", "-", "the loader's emptiness filter NotEmpty was not found")
 		return
 	}
-	kindTests := map[*ssa.Function]bool{}
-	for _, a := range allAnon(notEmptyFn) {
-		for _, call := range callsIn(a) {
-			g := call.Common().StaticCallee()
-			if g == nil || !w.InPkg(g) || g.Signature.Params().Len() != 1 || g.Signature.Results().Len() != 1 {
-				continue
-			}
-			if bt, ok := g.Signature.Results().At(0).Type().Underlying().(*types.Basic); !ok || bt.Kind() != types.Bool {
-				continue
-			}
-			if pt, ok := types.Unalias(g.Signature.Params().At(0).Type()).(*types.Pointer); ok {
-				if sn := namedOf(pt.Elem()); sn != nil && w.StructInfoOf(sn.Obj().Name()) != nil {
-					kindTests[g] = true
-				}
-			}
-		}
-	}
+	kindTests := notEmptyKindTests(w, notEmptyFn)
 	for _, k := range w.itemStructs() {
 		n := k.Obj().Name()
 		pk := types.NewPointer(k)
@@ -563,4 +547,30 @@ func checkAssertionsTested(w *World, c *Check, rule string, fns []*ssa.Function)
 		}
 	}
 	c.stat(rule+"_assertions", n)
+}
+
+// notEmptyKindTests: the kind-level emptiness tests NotEmpty delegates to — package functions func(*T) bool on a
+// vocabulary struct that are called from a callback somewhere in the closure of NotEmpty (NotEmpty itself, or the
+// per-family helpers it may have been split into).
+func notEmptyKindTests(w *World, notEmptyFn *ssa.Function) map[*ssa.Function]bool {
+	kindTests := map[*ssa.Function]bool{}
+	for _, f := range w.Reach([]*ssa.Function{notEmptyFn}, nil) {
+		for _, a := range allAnon(f) {
+			for _, call := range callsIn(a) {
+				g := call.Common().StaticCallee()
+				if g == nil || !w.InPkg(g) || g.Signature.Params().Len() != 1 || g.Signature.Results().Len() != 1 {
+					continue
+				}
+				if bt, ok := g.Signature.Results().At(0).Type().Underlying().(*types.Basic); !ok || bt.Kind() != types.Bool {
+					continue
+				}
+				if pt, ok := types.Unalias(g.Signature.Params().At(0).Type()).(*types.Pointer); ok {
+					if sn := namedOf(pt.Elem()); sn != nil && w.StructInfoOf(sn.Obj().Name()) != nil {
+						kindTests[g] = true
+					}
+				}
+			}
+		}
+	}
+	return kindTests
 }
